@@ -24,6 +24,9 @@ type (
 	Error        = net.Error
 	OpError      = net.OpError
 	Interface    = net.Interface
+	Buffers      = net.Buffers
+	Dialer       = net.Dialer
+	ListenConfig = net.ListenConfig
 )
 
 var ErrClosed = net.ErrClosed
